@@ -1,4 +1,5 @@
 """C16 - readers are total: a document, or a ParserException - never anything else."""
+import io
 import json
 import os
 import signal
@@ -311,7 +312,7 @@ def grammar_case(draw):
                                  '<!DOCTYPE odML [ <!ENTITY e "ent"> ]>\n']))
     text = "%s<%s %s>%s</%s>" % (head, root, version, "".join(children), root)
     return {"text": text, "root": root, "version": version, "markers": markers, "faults": sorted(set(faults)),
-            "lenient": draw(st.booleans()), "entry": draw(st.sampled_from(["string", "file", "odmlreader", "load"])),
+            "lenient": draw(st.booleans()), "entry": draw(st.sampled_from(["string", "file", "fileobj", "odmlreader", "load"])),
             "file_encoding": draw(st.sampled_from(["utf-8", "utf-8", "iso-8859-1", "utf-16"]))}
 
 
@@ -331,6 +332,9 @@ def read_xml(text, lenient, entry, d, file_encoding="utf-8"):
             fh.write(text)
     if entry == "file":
         return XMLReader(ignore_errors=lenient, show_warnings=False).from_file(path)
+    if entry == "fileobj":
+        with open(path, "rb") as fh:
+            return XMLReader(ignore_errors=lenient, show_warnings=False).from_file(fh)
     if entry == "odmlreader":
         return ODMLReader("XML", show_warnings=False).from_file(path)
     return odml.load(path, "XML", show_warnings=False)
@@ -433,7 +437,7 @@ def mutation_cases():
         "ops": st.lists(st.tuples(st.sampled_from(MUTATIONS), st.integers(0, 60), st.integers(0, 60)).map(list),
                         min_size=1, max_size=4),
         "lenient": st.booleans(),
-        "entry": st.sampled_from(["string", "file", "load"]),
+        "entry": st.sampled_from(["string", "file", "fileobj", "load"]),
     })
 
 
@@ -657,6 +661,12 @@ def special_body(name, lenient, entry):
                 return XMLReader(ignore_errors=lenient, show_warnings=False).from_file(path)
             if entry == "load":
                 return odml.load(path, "XML", show_warnings=False)
+            if entry == "fileobj":
+                # "file path ... or file like object": an open file of the file on disk
+                with open(path, "rb") as fh:
+                    return XMLReader(ignore_errors=lenient, show_warnings=False).from_file(fh)
+            if entry == "bytesio":
+                return XMLReader(ignore_errors=lenient, show_warnings=False).from_file(io.BytesIO(data))
             return XMLReader(ignore_errors=lenient, show_warnings=False).from_string(data)
         res, exc = guarded(call)
         doc = judge(res, exc, "special input %s (%s, %s)" % (name, "lenient" if lenient else "strict", entry),
@@ -673,7 +683,7 @@ def special_body(name, lenient, entry):
 def run_special(ctx):
     for name in sorted(SPECIAL):
         for lenient in (False, True):
-            for entry in ("file", "load", "bytes"):
+            for entry in ("file", "load", "bytes", "fileobj", "bytesio"):
                 case = {"name": name, "lenient": lenient, "entry": entry}
                 ok, fails = special_body(name, lenient, entry)
                 unmatched = ctx.case(case, True, ["special:" + name, "special:" + ("document" if ok else "refused")],
